@@ -895,9 +895,12 @@ def open_compares(run) -> List[Tuple[Any, Any]]:
     for a, b in run.world.I.open_cmps:
         if splittable(a, b) and (a, b) not in out and (b, a) not in out:
             out.append((a, b))
+    opq = set(run.world.I.opaque_funcs or ())
     for ev in run.world.I.events:
         if ev.kind != "branch" or ev.data.get("tv") is not None:
             continue
+        if ev.func in opq or any(lbl in opq for lbl in (getattr(ev, "stack", None) or ())):
+            continue  # a guard inside a function the run treats as uninterpreted
         v = ev.data.get("val")
         s = getattr(v, "sym", None)
         if isinstance(v, Bool) and isinstance(s, tuple) and len(s) == 4 and s[0] == "cmp" and s[2] is not None and s[3] is not None:
